@@ -1,4 +1,5 @@
 CFG = {
+    "extract": "save_order",
     "lean_targets": ["Norad.Props.C17"],
     "audit": "Norad/Audit/C17.lean",
     "rule": ("Font::load_requested_data vs Font::load on generated format-3 trees (0-3 extra layers in varying file order, default layer named or not, every optional "
@@ -24,7 +25,8 @@ MANIFEST = {
              "result), default_layer_always_present_and_first (every successful load, any request), default_layer_empty_when_filtered_out. Correspondence and oracle: "
              "exhaustive switch x filter-shape enumeration on generated trees; PART = restrict(FULL) on the implementation's own dumps; the garbage variant loads and dumps the same."
              " Second phase: file-level partial_eq_restricted_full, partial_succeeds_if_full_does and unrequested_files_not_read (AgreeOnReadSet) are proved."
-             " Third phase: 10 filter shapes (two builder-order shapes added) and trees with absent optional files."),
+             " Third phase: 10 filter shapes (two builder-order shapes added) and trees with absent optional files."
+             " Source-level tie: source_switches_match_model - the request.<switch> -> file table extracted from fn load_impl equals the table MEASURED on loadImpl (which corrupt file makes which single-switch load fail), by decide."),
     "design_ref": "5 / C17, 8",
     "note": "trusted: Lean kernel + 3 standard axioms; harness/driver glue; parsers abstract; see docs/notes/C17.md",
     "technique": "Lean 4 proof about a switch-guarded load model + exhaustive differential partial/full loads with corrupted un-requested files",
